@@ -136,3 +136,17 @@ fn test_struct_variance() {
         }
     );
 }
+
+#[test]
+fn test_struct_int_float_parameters() {
+    // Test printing integer and float type parameters.
+    reparse_test!(
+        program {
+            struct Foo<int T, float U, V> {
+                a: T,
+                b: U,
+                c: V
+            }
+        }
+    );
+}
